@@ -72,18 +72,19 @@ type WeatherDay struct {
 }
 
 type WeatherSpec struct {
-	Layout     int // 0 one file per year, 1 multi-year CSV, 2 cz (day-of-year)
-	Days       []WeatherDay
-	NoneValue  float64
-	NumHeader  int
-	WindHeight float64
-	Altitude   float64
-	HasSun     bool
-	HasVerd    bool
-	Code       string // fcode
-	Folder     string
-	CO2InFile  float64 // layout 2: CO2 column value (0 = no column)
-	ExactTavg  bool    // write the mean temperature with full precision (pairs with the layout that derives it from min/max)
+	Layout        int // 0 one file per year, 1 multi-year CSV, 2 cz (day-of-year)
+	Days          []WeatherDay
+	NoneValue     float64
+	NumHeader     int
+	StartsMidYear bool // the series begins inside the start year, before the simulation start
+	WindHeight    float64
+	Altitude      float64
+	HasSun        bool
+	HasVerd       bool
+	Code          string // fcode
+	Folder        string
+	CO2InFile     float64 // layout 2: CO2 column value (0 = no column)
+	ExactTavg     bool    // write the mean temperature with full precision (pairs with the layout that derives it from min/max)
 }
 
 type RotEntry struct {
@@ -420,7 +421,7 @@ type Profile struct {
 	Crops        []string
 	OutIntervals []int
 	TillDeep     bool
-	TillShallow  bool // also draw tillage rows of depth 0 and 1-4 cm
+	TillShallow  bool    // also draw tillage rows of depth 0 and 1-4 cm
 	PolarProb    float64 // probability of a latitude beyond the polar circles
 	ZeroRadProb  float64 // probability of a weather series without measured radiation (sunshine hours instead)
 	Permanent    float64 // probability of a block of permanent-crop cuts (grass / alfalfa) early in the rotation
@@ -790,7 +791,7 @@ func (sc *Scenario) centurySplitRange() (cLow, cHigh int, ok bool) {
 	if hi-lo > 98 || lo < 1901 {
 		return 0, 0, false
 	}
-	cLow = hi - 1999 // smallest admissible split: the latest year is 1999+split
+	cLow = hi - 1999  // smallest admissible split: the latest year is 1999+split
 	cHigh = lo - 1900 // largest admissible split: the earliest year is 1900+split
 	if cLow < 1 {
 		cLow = 1
@@ -980,6 +981,11 @@ func genWeather(sc *Scenario, r *Rng, p Profile) {
 	firstDate := Date{firstYear, 1, 1}
 	if w.Layout != 0 && r.Bool(0.2) && firstYear < sc.Start.Y {
 		firstDate = firstDate.AddDays(r.Range(0, 300)) // series that does not start on 1 January
+	}
+	if r4 := NewRng(mix(mix(sc.Seed, uint64(sc.Index)), 303)); w.Layout != 0 && firstYear == sc.Start.Y && sc.Start.DOY() > 30 && r4.Bool(0.2) {
+		// a series that begins inside the start year, some days or months before the simulation starts
+		firstDate = firstDate.AddDays(r4.Range(1, sc.Start.DOY()-15))
+		w.StartsMidYear = true
 	}
 	for d := firstDate; d.Y <= lastYear; d = d.AddDays(1) {
 		doy := float64(d.DOY())
